@@ -97,7 +97,9 @@ impl Announcer {
         duration: time::Duration,
     ) -> ControlFlow<Success, Progress> {
         if node == self.local_node {
-            return ControlFlow::Continue(self.progress());
+            // N.b. the local node is never counted, but the target may
+            // already have been reached
+            return self.finished();
         }
         self.to_sync.remove(&node);
         self.synced.insert(node, SyncStatus::Synced { duration });
